@@ -142,7 +142,45 @@ func (g *c07Gen) program(steps int) *zr.Program {
 	for s := 0; s < steps; s++ {
 		var st []zr.Stmt
 		nvars := len(g.vars)
-		switch r.Intn(18) {
+		switch r.Intn(20) {
+		case 18, 19: // a named collection stored through a storing method: 后增 / 前增 / 写入 (new or existing key) / 合并
+			src, ok := g.pickVar("list", "dict")
+			if !ok {
+				continue
+			}
+			var srcE zr.Expr = zr.N(src.name)
+			if r.Intn(3) == 0 {
+				srcE = g.path(srcE, 1) // an element reached through a name
+			}
+			switch r.Intn(4) {
+			case 0, 1:
+				dst, ok := g.pickVar("dict", "any")
+				if !ok {
+					continue
+				}
+				k := zr.S(fmt.Sprintf("键%c", nameGlyphs[r.Intn(4)]))
+				st = []zr.Stmt{zr.ExprStmt{E: zr.MCall{Recv: g.path(zr.N(dst.name), r.Intn(2)), Chain: []zr.CallPart{{Fn: "写入", Args: []zr.Expr{k, srcE}}}}}}
+				g.feat["store-collection-by-写入"] = true
+			case 2:
+				dst, ok := g.pickVar("list", "any")
+				if !ok {
+					continue
+				}
+				m := []string{"后增", "前增"}[r.Intn(2)]
+				st = []zr.Stmt{zr.ExprStmt{E: zr.MCall{Recv: g.path(zr.N(dst.name), r.Intn(2)), Chain: []zr.CallPart{{Fn: m, Args: []zr.Expr{srcE}}}}}}
+				g.feat["store-collection-by-"+m] = true
+			default:
+				dst, ok := g.pickVar("list")
+				if !ok {
+					continue
+				}
+				other, ok := g.pickVar("list")
+				if !ok {
+					continue
+				}
+				st = []zr.Stmt{zr.ExprStmt{E: zr.MCall{Recv: zr.N(dst.name), Chain: []zr.CallPart{{Fn: "合并", Args: []zr.Expr{zr.N(other.name)}}}}}}
+				g.feat["store-collection-by-合并"] = true
+			}
 		case 14: // assignment whose right-hand side is a call that hands back its receiver
 			dst, ok := g.pickVar("list")
 			if !ok {
@@ -376,7 +414,7 @@ func (g *c07Gen) program(steps int) *zr.Program {
 }
 
 func checkC07(c *Ctx) {
-	c.rule = "histories: 2-4 variables holding nested lists/dictionaries (depth<=3) and objects of a type with a list property; steps = copies via 令, multi-declaration, =, element assignment of whole collections, copies out of elements and loop variables, property assignment, assignments and declarations whose right-hand side is a call that hands back its receiver (后增 / 前增), its argument (a user method) or the object's own list (a type method); copies declared with 设为 and 恒为, several names from one literal; mutations through any name at any depth (element/key writes on index paths, in-place 自增/自减 on nested numbers, 后增 前增 左移 右移 交换 写入 移除, object property writes and methods through aliases), literals re-executed in loops; every variable is displayed after every step. Each step may fail (missing path): reference and implementation must then fail alike. Oracle: reference heap model (deep copy on declare/assign/element assign, objects by reference, fresh literals). distinct_nontrivial = distinct (feature set, history length, outcome kind) among histories with at least one copy and one later mutation"
+	c.rule = "histories: 2-4 variables holding nested lists/dictionaries (depth<=3) and objects of a type with a list property; steps = copies via 令, multi-declaration, =, element assignment of whole collections, copies out of elements and loop variables, property assignment, assignments and declarations whose right-hand side is a call that hands back its receiver (后增 / 前增), its argument (a user method) or the object's own list (a type method); copies declared with 设为 and 恒为, several names from one literal; named collections (or elements reached through a name) stored through 写入 (new and existing keys) / 后增 / 前增 / 合并; mutations through any name at any depth (element/key writes on index paths, in-place 自增/自减 on nested numbers, 后增 前增 左移 右移 交换 写入 移除, object property writes and methods through aliases), literals re-executed in loops; every variable is displayed after every step. Each step may fail (missing path): reference and implementation must then fail alike. Oracle: reference heap model (deep copy on declare/assign/element assign, objects by reference, fresh literals). distinct_nontrivial = distinct (feature set, history length, outcome kind) among histories with at least one copy and one later mutation"
 	c.assumptions = []string{"mutation through loop variables / method parameters is not generated (U2)", "display is compared atom-wise"}
 	rng := c.Rand("c07")
 	var progs []*zr.Program
